@@ -998,16 +998,80 @@ func (g *genCtx) tmplCrossSiblingCycle() {
 	p := g.r.Perm(g.ft.NT)
 	a, b, x, y := p[0], p[1], p[2], p[3]
 	s1, s2 := 1, 2
+	ctorA := func() { g.simpleCtor(s1, []int{x}, a, true, "cross-sibling") }
+	var more []func()
+	if !g.ft.Catalog && g.ft.NT+3 <= NumK && g.r.P(0.3) {
+		// a constructor of the loop has an optional dependency, listed first,
+		// whose provider gives up every time it is tried: the value it needs
+		// is decorated by a decorator with a dependency nobody provides
+		q, z, u := g.ft.NT, g.ft.NT+1, g.ft.NT+2
+		ctorA = func() {
+			f := g.newFunc(RoleCtor)
+			f.Params = []Param{{Kind: PObj, Fields: []Param{{Kind: PSingle, T: q, Opt: true}}}, {Kind: PSingle, T: x}}
+			f.Results = []Result{{Kind: RSingle, T: a}}
+			f.HasErr = g.r.P(0.5)
+			f.Export = true
+			i := g.addOp(Op{Kind: OpProvide, Scope: s1, Fn: f.ID, Tag: "cross-sibling"})
+			if g.m.PredictProvide(s1, f) == PredOK {
+				g.m.AddCtor(s1, i, f)
+			}
+		}
+		zs := []int{0, s1}[g.r.Intn(2)]
+		more = []func(){
+			func() { g.simpleCtor(s1, []int{z}, q, false, "cross-sibling") },
+			func() { g.simpleCtor(zs, nil, z, false, "cross-sibling") },
+			func() { g.simpleDec(s1, z, []int{u}, "cross-sibling") },
+		}
+	}
 	steps := []func(){
 		func() { g.simpleCtor(s1, []int{b}, x, false, "cross-sibling") },
-		func() { g.simpleCtor(s1, []int{x}, a, true, "cross-sibling") },
+		ctorA,
 		func() { g.simpleCtor(s2, []int{a}, y, false, "cross-sibling") },
 		func() { g.simpleCtor(s2, []int{y}, b, true, "cross-sibling") },
+	}
+	steps = append(steps, more...)
+	if g.r.P(0.4) {
+		// the loop passes through decorated values: decorators start and
+		// complete (or give up for a dependency nobody provides) while the
+		// constructors of the loop are being built
+		for n := g.r.Range(1, 2); n > 0; n-- {
+			sc, k := s1, x
+			if g.r.P(0.5) {
+				sc, k = s2, y
+			}
+			var extra []int
+			if g.ft.NT > 4 && g.r.P(0.4) {
+				extra = []int{p[4]} // often unprovided
+			}
+			steps = append(steps, func() { g.simpleDec(sc, k, extra, "cross-sibling") })
+		}
 	}
 	for _, i := range g.r.Perm(len(steps)) {
 		steps[i]()
 	}
 	g.simpleInvoke([]int{0, s1, s2}[g.r.Intn(3)], []int{[]int{a, b}[g.r.Intn(2)]}, "cross-sibling")
+	if g.r.P(0.3) {
+		g.simpleInvoke([]int{0, s1, s2}[g.r.Intn(3)], []int{[]int{a, b}[g.r.Intn(2)]}, "cross-sibling")
+	}
+}
+
+// simpleDec: a decorator func(k, extra...) k registered in s.
+func (g *genCtx) simpleDec(s, k int, extra []int, tag string) {
+	f := g.newFunc(RoleDec)
+	f.Params = []Param{{Kind: PSingle, T: k}}
+	for _, t := range extra {
+		if g.r.P(0.5) {
+			f.Params = append(f.Params, Param{Kind: PObj, Fields: []Param{{Kind: PSingle, T: t, Opt: true}}})
+		} else {
+			f.Params = append(f.Params, Param{Kind: PSingle, T: t})
+		}
+	}
+	f.Results = []Result{{Kind: RSingle, T: k}}
+	f.HasErr = g.r.P(0.3)
+	i := g.addOp(Op{Kind: OpDecorate, Scope: s, Fn: f.ID, Tag: tag})
+	if g.m.PredictDecorate(s, f) == PredOK {
+		g.m.AddDec(s, i, f)
+	}
 }
 
 // tmplDescendantCycle: a Provide to an ancestor closes a cycle that exists only
